@@ -148,11 +148,21 @@ fn fin(a: &Args, z: &ElementVar) -> R<String> {
     Ok(s)
 }
 
+/// field inputs of the field-level gadgets: witness (default), or a constant with `fmode=const`
+fn alloc_fq(a: &Args, cs: &ConstraintSystemRef<Fq>, x: Fq) -> R<FqVar> {
+    if a.get("fmode") == Some("const") {
+        FqVar::new_constant(cs.clone(), x).map_err(se)
+    } else {
+        FqVar::new_witness(cs.clone(), || Ok(x)).map_err(se)
+    }
+}
+
 /// operand allocation; with `pre=enc` the operand's encoding is forced (and cached in its lazy cell) before use,
 /// with `pre=input` it is allocated as a public input (encoding known, element decoded in-circuit)
 fn alloc_operand(a: &Args, cs: &ConstraintSystemRef<Fq>, e: Element) -> R<ElementVar> {
     match a.get("pre") {
         Some("input") => ElementVar::new_input(cs.clone(), || Ok(e)).map_err(se),
+        Some("const") => ElementVar::new_constant(cs.clone(), e).map_err(se),
         Some("enc") => {
             let v = alloc_plain(cs, e)?;
             let _ = v.compress_to_field().map_err(se)?;
@@ -167,7 +177,7 @@ fn synth(op: &str, a: &Args, cs: &ConstraintSystemRef<Fq>) -> R<String> {
     match op {
         "isqrt" => {
             let x = a.fq("x")?;
-            let xv = FqVar::new_witness(cs.clone(), || Ok(x)).map_err(se)?;
+            let xv = alloc_fq(a, cs, x)?;
             let (f, y) = xv.isqrt().map_err(se)?;
             let fv = f.value().map(|b| if b { "1" } else { "0" }).unwrap_or("?");
             let yv = y.value().map(|v| fqh(&absq(v))).unwrap_or_else(|_| "?".into());
@@ -175,7 +185,7 @@ fn synth(op: &str, a: &Args, cs: &ConstraintSystemRef<Fq>) -> R<String> {
         }
         "isneg" | "isnonneg" | "abs" => {
             let x = a.fq("x")?;
-            let xv = FqVar::new_witness(cs.clone(), || Ok(x)).map_err(se)?;
+            let xv = alloc_fq(a, cs, x)?;
             match op {
                 "isneg" => Ok(xv.is_negative().map_err(se)?.value().map(|b| if b { "1" } else { "0" }).unwrap_or("?").to_string()),
                 "isnonneg" => Ok(xv.is_nonnegative().map_err(se)?.value().map(|b| if b { "1" } else { "0" }).unwrap_or("?").to_string()),
@@ -184,13 +194,13 @@ fn synth(op: &str, a: &Args, cs: &ConstraintSystemRef<Fq>) -> R<String> {
         }
         "compress" => {
             let e = a.elem("e")?;
-            let ev = alloc_plain(cs, e)?;
+            let ev = alloc_operand(a, cs, e)?;
             let s = ev.compress_to_field().map_err(se)?;
             Ok(s.value().map(|v| fqh(&v)).unwrap_or_else(|_| "?".into()))
         }
         "decompress" => {
             let s = a.fq("s")?;
-            let sv = FqVar::new_witness(cs.clone(), || Ok(s)).map_err(se)?;
+            let sv = alloc_fq(a, cs, s)?;
             let ev = ElementVar::decompress_from_field(sv).map_err(se)?;
             // satisfaction and size right after the gadget call, before anything forces the variable
             let sat0 = match cs.is_satisfied() { Ok(true) => "1", Ok(false) => "0", Err(_) => "err" };
@@ -200,7 +210,7 @@ fn synth(op: &str, a: &Args, cs: &ConstraintSystemRef<Fq>) -> R<String> {
         }
         "elligator" => {
             let r0 = a.fq("r0")?;
-            let rv = FqVar::new_witness(cs.clone(), || Ok(r0)).map_err(se)?;
+            let rv = alloc_fq(a, cs, r0)?;
             let ev = ElementVar::encode_to_curve(&rv).map_err(se)?;
             Ok(elem_value(&ev))
         }
@@ -246,9 +256,21 @@ fn synth(op: &str, a: &Args, cs: &ConstraintSystemRef<Fq>) -> R<String> {
             let x = a.elem("a")?;
             let bits = a.get("bits").ok_or("bad-op")?;
             let xv = alloc_operand(a, cs, x)?;
+            // how the scalar's bits reach the gadget: witnesses (default), constants, public inputs, or a constant low
+            // half below a witnessed high half
+            let bmode = a.get("bmode").unwrap_or("witness");
+            let n = bits.chars().count();
             let mut bv = Vec::new();
-            for ch in bits.chars() {
-                bv.push(Boolean::new_witness(cs.clone(), || Ok(ch == '1')).map_err(se)?);
+            for (i, ch) in bits.chars().enumerate() {
+                let b = ch == '1';
+                let konst = bmode == "const" || (bmode == "mixed" && i < n / 2);
+                bv.push(if konst {
+                    Boolean::constant(b)
+                } else if bmode == "input" {
+                    Boolean::new_input(cs.clone(), || Ok(b)).map_err(se)?
+                } else {
+                    Boolean::new_witness(cs.clone(), || Ok(b)).map_err(se)?
+                });
             }
             fin(a, &xv.scalar_mul_le(bv.iter()).map_err(se)?)
         }
